@@ -18,8 +18,12 @@ def onObj (p : Params) (o : Obj) : Obj :=
 
 def apply (p : Params) (S : Schemas) : Schemas := S.map (visitSchema id (fun _ => onObj p))
 
-def fail? (_ : Params) (S : Schemas) : Option Failure :=
-  firstFail (visitSchemaFail (walkFail []) (fun _ => none)) S
+/-- the trail message calls `ast.TypeName` on the old and the new type -/
+def objFail (p : Params) (o : Obj) : Option Failure :=
+  if p.object.matchesObj o && !(typeNameOk o.ty && typeNameOk p.as_) then some .panic else none
+
+def fail? (p : Params) (S : Schemas) : Option Failure :=
+  firstFail (visitSchemaFail (walkFail []) (objFail p)) S
 
 def run (p : Params) (S : Schemas) : Outcome Schemas := mkRun (fail? p S) (apply p S)
 
